@@ -372,7 +372,7 @@ def from_bytes_int(c):
     return None
 
 
-@model(r"^core::num::<impl u(8|16|32|64|128|size)>::(checked_sub|checked_add|saturating_sub|saturating_add|min|max|abs_diff)$|^std::cmp::(min|max)::<u(8|16|32|64|128|size)>$|^std::cmp::Ord::(min|max)$")
+@model(r"^core::num::<impl u(8|16|32|64|128|size)>::(checked_sub|checked_add|saturating_sub|saturating_add|min|max|abs_diff)$|^std::cmp::(min|max)::<u(8|16|32|64|128|size)>$|^std::cmp::Ord::(min|max)$|^<u(8|16|32|64|128|size) as std::cmp::Ord>::(min|max)$")
 def int_arith_helpers(c):
     if len(c.args) < 2:
         return None
@@ -442,6 +442,9 @@ def int_misc(c):
             if base <= 1:
                 return None
             c.require_ge(Lin.const(k) - e, "overflow:pow", "%d.pow(e) does not overflow: e <= %d" % (base, k))
+            ev = c.st.sys.const_value(e)
+            if ev is not None and 0 <= ev <= k:
+                return [(c.st, Num(Lin.const(int(base) ** int(ev))))]
             return None
         c.oblige(False, "overflow:pow", "pow with a non-constant base", "base not constant")
     return None
